@@ -33,6 +33,16 @@ def stageExpect (sch : Schema) (orc : Oracle) (root : MsgDesc) (bd : Binding) (d
       | .error e => some (.error e)
       | .ok m0 => some (stageApply sch orc m0 srcs)
 
+/-- **The oracle the driver judges every case by.** Inside the hypotheses of `C04_refines` it IS `stageExpect` — proved
+    (`C04_expect_accepts/_rejects/_in_domain`) to be the declarative `StageSpec`; outside (oneof members, overlapping keys,
+    keys failing half-way) the per-field rules `expectRules` (GB/C04/Spec.lean), which leave oneof pass-through, JSON-named
+    path variables and the trailing-dot body path unspecified (`none`). Where both speak the driver requires them to
+    agree (`BAD the two specification oracles disagree` otherwise). -/
+def expect (sch : Schema) (orc : Oracle) (root : MsgDesc) (bd : Binding) (dec : Dec) (rq : Request) : Option (Except Err Msg) :=
+  match stageExpect sch orc root bd dec rq with
+  | some r => some r
+  | none => expectRules sch orc root bd dec rq
+
 theorem unrelated_of_pairwise : ∀ (srcs : List Src), pairwiseUnrelated (srcs.map (·.p)) = true → Unrelated srcs := by
   intro srcs
   induction srcs with
@@ -217,5 +227,12 @@ theorem stageExpect_defined (sch : Schema) (orc : Oracle) (root : MsgDesc) (bd :
   unfold stageExpect
   simp only [hs, pairwise_of_unrelated srcs hu, Bool.not_true, Bool.false_eq_true, if_false]
   cases bodyStage sch root bd dec <;> exact ⟨_, rfl⟩
+
+theorem expect_eq_stage (sch : Schema) (orc : Oracle) (root : MsgDesc) (bd : Binding) (dec : Dec) (rq : Request)
+    (srcs : List Src) (hs : srcsOf sch root (allCalls sch root bd rq) = some srcs) (hu : Unrelated srcs) :
+    expect sch orc root bd dec rq = stageExpect sch orc root bd dec rq := by
+  obtain ⟨r, hr⟩ := stageExpect_defined sch orc root bd dec rq srcs hs hu
+  unfold expect
+  rw [hr]
 
 end GB.C04
